@@ -92,7 +92,7 @@ def _d(seed, label):
     return int.from_bytes(hashlib.sha256(b"c19/%d/%s" % (seed, label.encode())).digest(), "big") % (M.N - 2) + 1
 
 
-OPS = ["sm2_keygen", "sm2_sign", "sm2_sign_ctx", "sm2_sign_ctx_long", "sm2_sign_ctx_long", "sm2_encrypt_ctx_long", "sm2_decrypt", "sm2_decrypt_bad", "sm2_ecdh", "sm2_import_der", "sm2_import_bad", "sm2_import_mismatch", "pem_key_damaged", "pem_key_damaged", "sm4_stream_dec", "sm4_stream_dec", "sm4_stream_dec", "sm4_stream_dec",
+OPS = ["sm2_keygen", "sm2_sign", "sm2_sign_ctx", "sm2_sign_ctx_long", "sm2_sign_ctx_long", "sm2_encrypt_ctx_long", "sm2_decrypt", "sm2_decrypt_bad", "sm2_ecdh", "sm2_ecdh_peer", "sm2_ecdh_peer", "sm2_import_der", "sm2_import_bad", "sm2_import_mismatch", "pem_key_damaged", "pem_key_damaged", "sm4_stream_dec", "sm4_stream_dec", "sm4_stream_dec", "sm4_stream_dec",
        "cms_open_0", "cms_open_1", "cms_open_2", "cms_open_3", "cms_open_4", "cms_open_5", "cms_open_6", "cms_open_6", "cms_open_7", "tls_ctx_keys", "tls_ctx_keys", "hex_key_bad", "tlcp_cke_badlen", "tlcp_cke_badlen",
        "pkcs8_open", "pkcs8_wrong_password", "sm9_key_open", "sm9_key_open_wrong_password", "sm9_key_open_wrong_password", "sm9_key_open_damaged", "sm9_key_open_damaged", "sm9_sign", "sm9_decrypt", "sm9_keygen",
        "hs_tlcp", "hs_tls12", "hs_tls13", "hs_tlcp_mutual", "hs_tls12_mutual", "hs_tls13_mutual",
@@ -359,6 +359,29 @@ def ops(case, ctx):
                     l.sm2_ecdh(key, Buf.of(oc), 65, out)
                     sp = M.mul(d, peer)
                     secrets["ecdh shared point"] = M.i2b(sp[0]) + M.i2b(sp[1])
+                elif op == "sm2_ecdh_peer":
+                    # peer shares that stand in a relation to the caller's own key: the own public key reflected back, its negative, the
+                    # generator, a small multiple, an off-curve point (refused), in uncompressed and compressed form, and at point level
+                    rel = ("own", "own", "neg-own", "generator", "double-own", "off-curve", "small")[case["n"] % 7]
+                    peer = {"own": pub, "neg-own": (pub[0], M.P - pub[1]), "generator": M.G, "double-own": M.mul(2 * d % M.N, M.G),
+                            "off-curve": (pub[0], (pub[1] + 1) % M.P), "small": M.mul(1 + seed % 5, M.G)}[rel]
+                    form = (seed >> 3) % 3
+                    out = Buf(64)
+                    if form == 0:
+                        oc = b"\x04" + M.i2b(peer[0]) + M.i2b(peer[1])
+                        l.sm2_ecdh(key, Buf.of(oc), 65, out)
+                    elif form == 1:
+                        oc = bytes([2 + (peer[1] & 1)]) + M.i2b(peer[0])
+                        l.sm2_ecdh(key, Buf.of(oc), 33, out)
+                    elif rel != "off-curve":
+                        from vlib.sm2io import pt_in
+                        o3 = Buf(96)
+                        l.sm2_do_ecdh(key, pt_in(peer, 1 + (seed >> 5) % 3), o3)
+                    if rel != "off-curve":
+                        sp = M.mul(d, peer)
+                        if sp is not None:
+                            secrets["ecdh shared point"] = M.i2b(sp[0]) + M.i2b(sp[1])
+                    ctx.note("peer:" + rel)
                 elif op in ("sm2_import_der", "sm2_import_bad"):
                     der = D.enc_pkcs8(M.i2b(d), b"\x04" + M.i2b(pub[0]) + M.i2b(pub[1]))
                     if op == "sm2_import_bad":
